@@ -1,11 +1,14 @@
 """C21 Aggregates follow SQL NULL and empty-input rules on every path — structural clauses."""
 from qe import *
+import re
 import k9
 import guards
 
 CLAIMS = ("R1 in every finaliser table (hash_agg::build_agg_array, hash_agg::build_vectorized_agg_column, morsel AccumulatorState::finalize) each arm for SUM/AVG/MIN/MAX contains a NULL-producing construct (append_null / ScalarValue::Null) so a group with no non-NULL input can yield NULL, each COUNT-family arm contains none (COUNT of nothing is 0), and no aggregate is emitted by a value-only loop outside the table; "
           "R3 NULL grouping keys form one group: the group-key extractor maps an is_null row to its dedicated Null value before any type dispatch; "
-          "R5 (= C07.R6) partial MIN states are never merged with Option's ordering.")
+          "R5 (= C07.R6) partial MIN states are never merged with Option's ordering; "
+          "R6 the group tables compare keys with GROUPING semantics: every row comparator an aggregation function of hash_agg.rs calls to decide 'same group' answers true for two NULLs and false for NULL vs non-NULL (evaluated abstractly over the NULL-ness of both operands); a comparator with join semantics (NULL never matches) splits the NULL group into one group per row; "
+          "R7 no aggregate result is a fabricated sentinel: in the aggregate evaluators (hash_agg.rs, morsel_agg.rs) the Option produced by Iterator::min/max/min_by/max_by/reduce over the non-NULL inputs never reaches an array constructor or builder through unwrap_or(<constant>) / unwrap_or_default (MIN/MAX over no rows is NULL, not i64::MAX).")
 NOT_DECIDED = "numeric results; that the single batch of an empty global aggregate has exactly one row (a value of aggregate_batches*)."
 
 HA = "physical::operators::hash_agg"
@@ -82,3 +85,62 @@ def run(F, R):
         if it["rule"] == "C07.R6":
             key = it["key"].split(":", 1)[1]
             (R.ok("C21.R5", key, it["detail"], it["loc"]) if it["status"] == "pass" else R.bad("C21.R5", key, it["what"], it["loc"], it["detail"]))
+    # ---- R6: grouping comparators
+    import nullpair
+    R.rule("C21.R6", "abstract evaluation over operand NULL-ness", "row comparators used by group tables: (NULL,NULL) -> same group; (NULL,x) -> different")
+    sites = []
+    for g in F.in_file("src/physical/operators/hash_agg.rs"):
+        for c in g.calls():
+            if c.name in F.bodies and len(c.args) == 4 and g.local_ty(place_local(c.dest)) == "bool" and "compare" in c.name.rsplit("::", 1)[-1]:
+                sites.append((g, c))
+    R.floor("C21.R6", "row-comparator calls in hash_agg.rs", len(sites), 1)
+    seen6 = set()
+    for g, c in sites:
+        # the per-column comparator: the callee itself, or the 4-argument bool function it calls per column
+        inner = [x.name for x in F.fam_calls(c.name) if x.name in F.bodies and len(x.args) == 4 and x.fn.local_ty(place_local(x.dest)) == "bool"]
+        target = inner[0] if inner else c.name
+        root = F.bodies[g.path].get("root") or g.path
+        if (root, target) in seen6:
+            continue
+        seen6.add((root, target))
+        b = nullpair.behaviour(F, target)
+        ok = b[(True, True)] == "true" and b[(True, False)] == "false" and b[(False, True)] == "false"
+        R.check(ok, "C21.R6", f"{root.rsplit('::', 1)[-1]}:{target.rsplit('::', 2)[-2]}::{target.rsplit('::', 1)[-1]}", f"group membership is decided by a comparator with (NULL,NULL) -> {b[(True, True)]}, (NULL,x) -> {b[(True, False)]}: NULL keys never equal each other, so every NULL row becomes its own group (SQL: all NULL keys form one group)", g.loc(c.bb), dict(behaviour={f"{k[0]},{k[1]}": v for k, v in b.items()}))
+    # ---- R7: sentinel results
+    R.rule("C21.R7", "K4 arm x K5 provenance", "inside a MIN/MAX arm of an aggregate dispatch, the Option of min()/max() is not defaulted to a constant")
+    n7 = 0
+    bad7 = []
+    REDUCE = ("min", "max", "min_by", "max_by", "reduce", "min_by_key", "max_by_key")
+    for file in ("src/physical/operators/hash_agg.rs", "src/physical/morsel_agg.rs", "src/physical/operators/morsel_agg.rs", "src/physical/operators/spillable.rs"):
+        for g in F.in_file(file):
+            if F.bodies[g.path]["kind"] not in ("fn", "method", "closure"):
+                continue
+            for m in g.raw["matches"]:
+                if m["kind"] != "match" or not any("AggregateFunction::" in a["pat"] for a in m["arms"]):
+                    continue
+                for a in m["arms"]:
+                    funcs = set(re.findall(r"AggregateFunction::([A-Za-z]+)", a["pat"]))
+                    if not funcs & {"Min", "Max"}:
+                        continue
+                    for c in calls_in_lines(g, a["span"]):
+                        last = c.name.rsplit("::", 1)[-1]
+                        if last in REDUCE and c.name.startswith(("std::iter::Iterator::", "core::iter::Iterator::")):
+                            n7 += 1
+                            for u in uses_of_local(g, place_local(c.dest)):
+                                if u[0] != "call":
+                                    continue
+                                w = u[1]
+                                wl = w.name.rsplit("::", 1)[-1]
+                                if wl == "unwrap_or_default" or (wl == "unwrap_or" and len(w.args) > 1 and origin(g, w.args[1])[0] == "const"):
+                                    tyk = (c.self_ty or "").split("datatypes::")[-1].split(">")[0] if "datatypes::" in (c.self_ty or "") else "?"
+                                    bad7.append((g, w, "|".join(sorted(funcs & {"Min", "Max"})), tyk))
+    R.floor("C21.R7", "min/max reductions inside MIN/MAX arms", n7, 4)
+    seen7 = set()
+    for g, w, fn_, tyk in bad7:
+        root = F.bodies[g.path].get("root") or g.path
+        key = f"{root.rsplit('::', 1)[-1]}:{fn_}/{tyk}:sentinel"
+        if key in seen7:
+            continue
+        seen7.add(key)
+        R.bad("C21.R7", key, f"{fn_.upper()} over no non-NULL input yields a fabricated sentinel (unwrap_or of a constant) instead of NULL: `SELECT {fn_.upper()}(v) FROM t WHERE false` returns i64::MIN / i64::MAX", g.loc(w.bb), dict())
+    R.ok("C21.R7", "min/max-results-keep-their-Option", dict(reductions=n7, sentinels=len(seen7)))
